@@ -37,16 +37,18 @@ def cfg_text(c, prune=True, invs=INVS, props=''):
     def sset(xs, q=False):
         return '{' + ', '.join(('"%s"' % x) if q else str(x) for x in xs) + '}'
     return ('SPECIFICATION Spec\nCONSTANTS\n  Streams = %s\n  CbStreams = %s\n  Closers = %s\n  Atomic = %s\n  MaxSend = %d\n'
-            '  MaxPeerClose = %d\n  WithAccept = %s\n  WithFlush = %s\n  MaxOps = %d\n  LateStreams = %s\n  FixedOpen = %s\n  FixedFlush = %s\n%sINVARIANTS %s\n%sCHECK_DEADLOCK FALSE\n') % (
+            '  MaxPeerClose = %d\n  WithAccept = %s\n  WithFlush = %s\n  MaxOps = %d\n  LateStreams = %s\n  FixedOpen = %s\n  FixedFlush = %s\n  WithRetry = %s\n  RetryWoken = %s\n  WithSeq = %s\n  FixedReserve = %s\n%sINVARIANTS %s\n%sCHECK_DEADLOCK FALSE\n') % (
         sset(c['streams']), sset(c['cb']), sset(c['closers'], True), 'TRUE' if c['atomic'] else 'FALSE', c['maxsend'],
         c['maxpc'], 'TRUE' if c['accept'] else 'FALSE', 'TRUE' if c['flush'] else 'FALSE', c['maxops'], sset(c.get('late', [])),
         'FALSE' if c.get('prefix') else 'TRUE', 'FALSE' if c.get('prefix') else 'TRUE',
+        'TRUE' if c.get('retry') else 'FALSE', 'FALSE' if c.get('noretrywake') else 'TRUE',
+        'TRUE' if c.get('seq') else 'FALSE', 'FALSE' if c.get('noreservecheck') else 'TRUE',
         'CONSTRAINT NoKnownFinding\n' if prune else '', invs, ('PROPERTIES %s\n' % props) if props else '')
 
 
 def describe(c):
     return 'streams=%s%s cb=%s closers=%d %s send<=%d peerclose<=%d accept=%s flush=%s ops<=%d' % (
-        c['streams'], (' late=%s' % c['late']) if c.get('late') else '', c['cb'], len(c['closers']), 'run-to-completion' if c['atomic'] else 'all interleavings', c['maxsend'],
+        c['streams'], ((' late=%s' % c['late']) if c.get('late') else '') + (' flush-in-retry' if c.get('retry') else '') + (' writer-sequences' if c.get('seq') else ''), c['cb'], len(c['closers']), 'run-to-completion' if c['atomic'] else 'all interleavings', c['maxsend'],
         c['maxpc'], c['accept'], c['flush'], c['maxops'])
 
 
@@ -82,7 +84,7 @@ def expect(st, streams):
         'tablenil': table_nil, 'notified': per(st['notified'], streams), 'cbbusy': per(st['cbBusy'], streams),
         'cbl': per(st['cbL'], streams), 'cbr': per(st['cbR'], streams), 'unread': per(st['unread'], streams),
         'rd': per(st['rd'], streams), 'fl': st['fl'], 'acc': st['acc'], 'bm': st['bm'], 'qm': st['qm'],
-        'flag': st['flag'] if st['qm'] == 'mapped' else -1, 'lastopen': st['lastOpen'], 'lastsend': st['lastSend'], 'out': out, 'nsbusy': st['nsBusy'],
+        'flag': st['flag'] if st['qm'] == 'mapped' else -1, 'lastopen': st['lastOpen'], 'lastsend': st['lastSend'], 'out': out, 'nsbusy': st['nsBusy'], 'fr': st['fr'], 'lastseq': st['lastSeq'],
     }
 
 
@@ -257,6 +259,13 @@ WITNESS = {
     # a Flush that has passed its state check is parked inside queue.put while Close + teardown unmap the queue (child process)
     'stream-op-races-unmap': dict(streams=1, cb=[], gate='flush-races-unmap', steps=[]),
     'open-nil-nil': dict(streams=1, cb=[], gate='open-in-close-window', steps=[]),
+    # regression cases (no finding on HEAD) for the pending-call kind "flush-in-retry": stalled peer, full send queue, one more
+    # Flush inside the queue-full retry loop, then peer death / Session.Close and the teardown within the 100 ms of the loop
+    'flush-in-retry-death-a': dict(streams=1, cb=[], role='client', gate='retry-flush-death', steps=[]),
+    'flush-in-retry-death-b': dict(streams=1, cb=[], role='server', gate='retry-flush-death', steps=[]),
+    'flush-in-retry-death-c': dict(streams=1, cb=[], role='client', mem='memfd', gate='retry-flush-death', steps=[]),
+    'flush-in-retry-close-a': dict(streams=1, cb=[], role='client', gate='retry-flush-close', steps=[]),
+    'flush-in-retry-close-b': dict(streams=1, cb=[], role='server', mem='memfd', gate='retry-flush-close', steps=[]),
     # regression case (no finding on HEAD): an OpenStream that passed its closed check registers its stream after Close()
     # returned; the teardown lambda must close that stream as well
     'late-open-not-closed': dict(streams=1, cb=[], gate='open-register-after-close', steps=[]),
@@ -269,7 +278,7 @@ WITNESS = {
 def witness_schedules():
     out = []
     for slug, wit in WITNESS.items():
-        out.append({'name': 'witness-' + slug, 'role': wit.get('role') or ('server' if slug == 'no-close-callback-when-busy' else 'client'), 'mem': 'file',
+        out.append({'name': 'witness-' + slug, 'role': wit.get('role') or ('server' if slug == 'no-close-callback-when-busy' else 'client'), 'mem': wit.get('mem', 'file'),
                     'streams': wit['streams'], 'cb': wit['cb'], 'gate': wit.get('gate', ''), 'raw': True,
                     'steps': [{'a': a, 's': s, 't': t} for a, s, t in wit['steps']]})
     return out
@@ -352,20 +361,24 @@ def run(prop, tier, seed, replay=None):
 
     ck.cov['tlc_configs'] = []
     F, T = False, True
-    def C(streams, cb, closers, atomic, maxsend, maxpc, accept, flush, maxops, late=()):
-        return dict(streams=streams, cb=cb, closers=closers, atomic=atomic, maxsend=maxsend, maxpc=maxpc, accept=accept,
-                    flush=flush, maxops=maxops, late=list(late))
+    def C(streams, cb, closers, atomic, maxsend, maxpc, accept, flush, maxops, late=(), **kw):
+        d = dict(streams=streams, cb=cb, closers=closers, atomic=atomic, maxsend=maxsend, maxpc=maxpc, accept=accept,
+                 flush=flush, maxops=maxops, late=list(late))
+        d.update(kw)
+        return d
     if quick:
         fine_cfgs = [C([1], [], ['c1', 'c2'], F, 0, 0, F, F, 0), C([1], [1], ['c1'], F, 1, 0, F, F, 2)]
         fine_cfgs.append(C([1, 2], [], ['c1'], F, 0, 0, F, F, 1, late=[1, 2]))
-        coarse = [C([1, 2], [2], ['c1'], T, 1, 1, T, F, 1), C([1], [], ['c1', 'c2'], T, 1, 0, F, T, 1),
+        fine_cfgs.append(C([1], [], ['c1'], F, 0, 0, F, F, 2, retry=T, seq=T))
+        coarse = [C([1, 2], [2], ['c1'], T, 1, 1, T, F, 1), C([1], [], ['c1', 'c2'], T, 1, 0, F, T, 1, retry=T, seq=T),
                   # two streams that appear late: the second one is registered between Close() and the teardown lambda
                   C([1, 2], [], ['c1'], T, 0, 0, F, F, 2, late=[1, 2])]
         limit = 110
     else:
         fine_cfgs = [C([1], [], ['c1', 'c2'], F, 0, 0, F, F, 0), C([1], [1], ['c1'], F, 1, 0, F, F, 2),
                      C([1], [], ['c1', 'c2'], F, 1, 0, F, F, 1), C([1, 2], [2], ['c1'], F, 1, 1, T, F, 1)]
-        coarse = [C([1, 2], [2], ['c1'], T, 1, 1, T, F, 2), C([1], [], ['c1', 'c2'], T, 1, 0, T, T, 2),
+        fine_cfgs.append(C([1], [], ['c1', 'c2'], F, 0, 0, F, F, 2, retry=T, seq=T))
+        coarse = [C([1, 2], [2], ['c1'], T, 1, 1, T, F, 2), C([1], [], ['c1', 'c2'], T, 1, 0, T, T, 2, retry=T, seq=T),
                   C([1, 2], [1, 2], ['c1'], T, 2, 1, F, F, 2),
                   C([1, 2, 3], [], ['c1', 'c2'], T, 1, 0, F, F, 2, late=[2, 3])]
         fine_cfgs.append(C([1, 2], [], ['c1', 'c2'], F, 0, 0, F, F, 1, late=[1, 2]))
@@ -393,6 +406,13 @@ def run(prop, tier, seed, replay=None):
         r = tlc.run('Lifecycle', 'mc.cfg', timeout=400, workers=2,
                     extra_files={'mc.cfg': cfg_text(dict(C([1], [], ['c1'], F, 0, 0, F, F, 1), prefix=True), False, 'ErrorKnown LaterFail')})
         fine_out.append(('prefix-model', r))
+        # ... the retry loop without its closeNotifyCh arm, and a BufferWriter allocation path without the IsClosed() check
+        r = tlc.run('Lifecycle', 'mc.cfg', timeout=400, workers=2,
+                    extra_files={'mc.cfg': cfg_text(C([1], [], ['c1'], F, 0, 0, F, F, 1, retry=T, noretrywake=T), False, 'RetryNoFault')})
+        fine_out.append(('noretrywake-model', r))
+        r = tlc.run('Lifecycle', 'mc.cfg', timeout=400, workers=2,
+                    extra_files={'mc.cfg': cfg_text(C([1], [], ['c1'], F, 0, 0, F, F, 1, seq=T, noreservecheck=T), False, 'SeqNoFault')})
+        fine_out.append(('noreservecheck-model', r))
 
     def gate_thread():
         ws = [w for w in witness_schedules() if w['gate'] in GATED]
@@ -448,7 +468,7 @@ def run(prop, tier, seed, replay=None):
             for p in have:
                 rest.remove(p)
             chosen += have
-            for act in ('ParkFlush', 'ParkAccept', 'CbRelease', 'PeerCloseStream', 'TryOpen', 'ParkRead', 'StreamClose'):
+            for act in ('ParkRetryFlush', 'WriteSeq', 'RetryExpire', 'ParkFlush', 'ParkAccept', 'CbRelease', 'PeerCloseStream', 'TryOpen', 'ParkRead', 'StreamClose'):
                 have = [p for p in rest if any(edges[e][2].startswith(act) for e in p)][:max(6, limit // 10)]
                 for p in have:
                     rest.remove(p)
@@ -541,6 +561,11 @@ def run(prop, tier, seed, replay=None):
     ck.cov['exhaustive'] = True
     for wsched in wits:
         witness_verdict(ck, prop, known, wsched, rmap[wsched['name']])
+    retry_w = [rmap[w['name']] for w in wits if w['name'].startswith('witness-flush-in-retry')]
+    ck.cov['flush_in_retry_regression_scenarios_realised'] = len([r for r in retry_w if r['conforming']])
+    if retry_w and not any(r['conforming'] or r['violations'] for r in retry_w):
+        ck.notes.append('none of the %d staged flush-in-retry scenarios fitted into the 100 ms retry window on this run (%s)'
+                        % (len(retry_w), retry_w[0]['harness'][:120]))
 
     # ---- collect the threads
     join_all()
@@ -580,9 +605,11 @@ def run(prop, tier, seed, replay=None):
                 m = job_r['schedules'][0]
                 ck.sample({'real_loop_behaviour': brief(m), 'peer': m['peer'], 'survivor': m['role'], 'child_end': m['end']})
     for c, r in fine_out:
-        if c in ('unpruned', 'unpruned-fault', 'prefix-model'):
+        if c in ('unpruned', 'unpruned-fault', 'prefix-model', 'noretrywake-model', 'noreservecheck-model'):
             key = {'unpruned': 'design_counterexample_without_pruning', 'unpruned-fault': 'design_counterexample_without_pruning_fault',
-                   'prefix-model': 'design_counterexample_of_the_pre_fix_model'}[c]
+                   'prefix-model': 'design_counterexample_of_the_pre_fix_model',
+                   'noretrywake-model': 'design_counterexample_retry_loop_without_close_arm',
+                   'noreservecheck-model': 'design_counterexample_alloc_path_without_closed_check'}[c]
             ck.cov[key] = (r.violation or 'none') + (
                 ' kf=%s' % sorted(r.trace[-1][1].get('kf', [])) if r.violation and r.trace and isinstance(r.trace[-1][1], dict) else '')
             if r.violation and r.trace:
